@@ -212,6 +212,9 @@ def _with_rejected_sibling(n, label, field, value, valid, kind, exp):
 # right class, wrong value
 BOUND_BAD = [("Integer/bounds", ("int", 50)), ("Number/mult", ("int", 3)), ("Float/xmax", ("flt", 3, 0)),
              ("String/len", ("str", "toolong")), ("String/pat", ("str", "ABC")),
+             # multi-line texts against maxLength / minLength / pattern
+             ("String/len", ("str", "too\nlong")), ("String/len", ("str", "\n")), ("String/pat", ("str", "ab\nCD")),
+             ("String/len", ("str", "two\nlines; and a semicolon")),
              ("Integer/Positive", ("int", -3)), ("Number/NonNegative", ("int", -3)), ("Float/Negative", ("flt", 3, 0))]
 
 _INT = _num("Integer", "Any")
